@@ -88,7 +88,7 @@ def run_concrete(h, inputs):
     except Exception as e:  # the real code raised on valid input
         tb = traceback.extract_tb(e.__traceback__)
         where = [(os.path.relpath(f.filename, "/"), f.lineno, f.name) for f in tb][-4:]
-        if _in_harness(tb):
+        if _in_harness(tb) and not getattr(e, "real_code_failure", False):
             return {"status": "harness_error", "detail": "%s: %s" % (type(e).__name__, str(e)[:200]), "where": where}
         return {"status": "exception", "exc_type": type(e).__name__, "detail": str(e)[:300], "where": where, "nclaims": env.nclaims}
     if env.failed:
